@@ -520,24 +520,64 @@ class Engine:
             st.frames.pop()
 
     def named_const(self, path):
-        """integer constants of the workspace, read from the source (`const NAME: uN = <literal>;`, unique name)"""
+        """integer constants of the workspace, read from the source: `const NAME: uN = <expr>;` with a unique definition, where <expr> is built from
+        integer literals, `+`, `*`, parentheses and other such constants (e.g. `SHA256_DIGEST_LENGTH + 2`)"""
         name = path.split('::')[-1]
         cache = self.__dict__.setdefault('_const_cache', {})
         if name not in cache:
+            cache[name] = None          # cycle guard
             import subprocess
             from vlib import snap
-            r = subprocess.run(['grep', '-rhoE', rf'const {name}: (u8|u16|u32|u64|u128|usize|i32|i64|i128) = [0-9_]+( \* [0-9_]+)*;', snap.REPO + '/crates', '--include=*.rs'],
+            r = subprocess.run(['grep', '-rhoE', rf'const {name}: (u8|u16|u32|u64|u128|usize|i32|i64|i128) = [A-Za-z0-9_ +*():]+;', snap.REPO + '/crates', '--include=*.rs'],
                                capture_output=True, text=True)
             found = set(r.stdout.strip().split('\n')) - {''}
             val = None
             if len(found) == 1:
                 m = re.match(r'const \w+: (\w+) = (.+);', found.pop())
-                n = 1
-                for part in m.group(2).split('*'):
-                    n *= int(part.strip().replace('_', ''))
-                val = z3.BitVecVal(n, INT_TY[m.group(1)])
+                n = self._const_expr(m.group(2))
+                if n is not None:
+                    val = z3.BitVecVal(n, INT_TY[m.group(1)])
             cache[name] = val
         return cache[name]
+
+    def _const_expr(self, text):
+        toks = re.findall(r'[A-Za-z_][A-Za-z0-9_:]*|[0-9][0-9_]*(?:u8|u16|u32|u64|u128|usize|i32|i64|i128)?|[+*()]', text)
+        if ''.join(toks).replace(' ', '') != text.replace(' ', ''):
+            return None
+        pos = [0]
+
+        def atom():
+            if pos[0] >= len(toks): raise ValueError
+            t = toks[pos[0]]; pos[0] += 1
+            if t == '(':
+                v = expr()
+                if pos[0] >= len(toks) or toks[pos[0]] != ')': raise ValueError
+                pos[0] += 1
+                return v
+            if t[0].isdigit():
+                return int(re.sub(r'(u8|u16|u32|u64|u128|usize|i32|i64|i128)$', '', t).replace('_', ''))
+            if re.match(r'^[A-Za-z_]', t):
+                c = self.named_const(t)
+                if c is None: raise ValueError
+                return c.as_long()
+            raise ValueError
+
+        def term():
+            v = atom()
+            while pos[0] < len(toks) and toks[pos[0]] == '*':
+                pos[0] += 1; v *= atom()
+            return v
+
+        def expr():
+            v = term()
+            while pos[0] < len(toks) and toks[pos[0]] == '+':
+                pos[0] += 1; v += term()
+            return v
+        try:
+            v = expr()
+            return v if pos[0] == len(toks) else None
+        except ValueError:
+            return None
 
     # ---------------- rvalues
     def to_bv(self, v):
